@@ -166,10 +166,10 @@ LEVELS = {
     },
     'C19': {
         'category': 'other',
-        'text': 'Proved for all texts and in-range positions: math extract returns None or 0 <= start <= end <= len(text), the range contains only digits, dots, operators, parentheses and spaces, and look-ahead crosses only ) and spaces. Value and precedence (correctness of an operator-precedence algorithm) and the error clause are a bounded stand-in against an independent recogniser with exact Fraction arithmetic.',
+        'text': 'Proved for all texts and in-range positions: math extract returns None or 0 <= start <= end <= len(text), the range contains only digits, dots, operators, parentheses and spaces, and look-ahead crosses only ) and spaces. Proved for all strings about the parser: consume_number accepts exactly d+ | d+.d+ | .d+ (so float() cannot fail), the precedence table (* above + and -, / and \\ above *, unary minus as tight as /), every open parenthesis adds 10 to the priority (ghost count of parentheses consumed), parse() terminates and leaves only through a result or its own MathExpressionException with a position inside the expression, order_tokens() neither drops nor invents tokens. Value and precedence (correctness of an operator-precedence algorithm) and the error clause are a bounded stand-in against an independent recogniser with exact Fraction arithmetic.',
         'design_ref': 'DESIGN.md section 7 (C19)',
         'note': 'Trusted: CPython for the bounded part; the independent tag parser / executable spec of the bounded oracle.',
         'technique': TECH + '; bounded stand-in: exhaustive token sequences vs independent evaluator',
-        'clauses': 'P: math_expression.extract number/extract; B: evaluate-token-sequences(-narrow), evaluate-wellformed-deeper, evaluate-random, evaluate-strings, evaluate-intdiv-literals, extract-exhaustive.',
+        'clauses': 'P: math_expression.extract number/extract, parser consume_number/op1/op2/number/order_tokens/parse; B: evaluate-token-sequences(-narrow), evaluate-wellformed-deeper, evaluate-random, evaluate-strings, evaluate-intdiv-literals, extract-exhaustive.',
     },
 }
